@@ -474,7 +474,7 @@ func (c14) Gen(seed uint64, tier string) *Scenario {
 	if r.Bool(0.5) {
 		cpu = r.Pick(2, 3, 4, 8)
 	}
-	sc.Procs = []ProcSpec{{CPU: cpu, WaitTimeoutS: 10.0000001, RetryDelayNs: 10001009, Quiet: true, Format: "CSV"}}
+	sc.Procs = []ProcSpec{{CPU: cpu, WaitTimeoutS: 10.0000001, RetryDelayNs: 10001009, Quiet: true, Format: "CSV", Flags: swarmFlags(Sub(seed, "c14-flags"), 0.25, true)}}
 	renderC14(sc, m)
 	if big {
 		sc.Knobs = Knobs{RowStride: 64, MinPerCore: r.Pick(0, 20)}
